@@ -33,6 +33,11 @@ def main():
         return ctx.finish()
     try:
         mod.run(ctx)
+        if ctx.thorough and not any(o["name"].startswith("coqchk:") for o in ctx.obligations):
+            # second opinion: re-check every compiled property file (and all it depends on) with coqchk
+            import glob
+            for vo in sorted(glob.glob(os.path.join(ctx.build, "Prop_*.vo"))):
+                ctx.coqchk("Run." + os.path.basename(vo)[:-3])
     except SystemExit:
         raise
     except Exception:
